@@ -59,6 +59,20 @@ package rbc
 //@   invariant [totality] forall x msgReception :: x in this.reception && !this.equivocationDetected &&
 //@                          this.reception[x].m != nil && len(this.reception[x].idSet) >= this.N-1 ==> this.reception[x].delivered
 //@
+//@ // the methods of a Message are functions of the message (assumed: deterministic, side-effect free accessors; the
+//@ // orchestrator's rbcMsg getters are): what is registered for a payload is its own round and digest, under its sender
+//@ spec func roundOf(m Message) uint8
+//@ spec func digestOf(m Message) string
+//@ func Message.Round
+//@   props C04 C02 C03
+//@   modifies nothing
+//@   ensures result == roundOf(this)
+//@
+//@ func Message.Digest
+//@   props C04 C02 C03
+//@   modifies nothing
+//@   ensures string(result) == digestOf(this)
+//@
 //@ func (*Receiver).Receive
 //@   props C10 C02 C03 C04
 //@   unit
@@ -72,6 +86,8 @@ package rbc
 //@   on-call r.ForwardToBackend(fm, ff):
 //@     assert [p2p-unchanged] fm == m && ff == from
 //@     assert [not-an-ack]    len(digest) == 0
+//@   on-call (*Receiver).registerMsg(rr, rec, who, msg):
+//@     assert [payload-identity] msg != nil ==> msg == m && rec.msgRound == roundOf(m) && rec.digest == digestOf(m) && rec.sender == from
 //@   on-call r.BroadcastAck(d, s, rd):
 //@     ghost r.tAckSent[msgReception{d, s, rd}] = ite(r.tAckSent[msgReception{d, s, rd}] == 0, now, r.tAckSent[msgReception{d, s, rd}])
 //@
